@@ -556,6 +556,9 @@ fn builtin_sleep(args: Vec<Rc<Object>>) -> Result<Rc<Object>, String> {
 
     match args[0].as_ref() {
         Object::Integer(n) => {
+            if *n < 0 {
+                return Err(String::from("argument should not be negative"));
+            }
             thread::sleep(time::Duration::from_secs(*n as u64));
             Ok(Rc::new(Object::Null))
         }
